@@ -92,6 +92,7 @@ type Decoder struct {
 	head   int
 	tail   int
 	depth  int
+	budget int
 	simple bool
 	refer  decoderRefer
 	ref    []structInfo
@@ -114,6 +115,7 @@ func NewDecoder(input []byte) *Decoder {
 		simple: true,
 		head:   0,
 		tail:   len(input),
+		budget: len(input),
 	}
 }
 
@@ -129,6 +131,7 @@ func NewDecoderFromReader(reader io.Reader, bufSize ...int) *Decoder {
 		simple: true,
 		head:   0,
 		tail:   0,
+		budget: maxPrealloc,
 	}
 }
 
@@ -371,6 +374,7 @@ func (dec *Decoder) readReferenceObject() (o interface{}, ok bool) {
 func (dec *Decoder) ResetReader(reader io.Reader) *Decoder {
 	dec.reader = reader
 	dec.depth = 0
+	dec.budget = maxPrealloc
 	dec.head = 0
 	dec.tail = 0
 	return dec
@@ -380,6 +384,7 @@ func (dec *Decoder) ResetReader(reader io.Reader) *Decoder {
 func (dec *Decoder) ResetBytes(input []byte) *Decoder {
 	dec.reader = nil
 	dec.depth = 0
+	dec.budget = len(input)
 	dec.buf = input
 	dec.head = 0
 	dec.tail = len(input)
@@ -457,6 +462,21 @@ func (dec *Decoder) prealloc(count int) int {
 		return maxPrealloc
 	}
 	return count
+}
+
+// preallocCount returns how many of the count elements of a list or a map may be allocated
+// before they are read. All containers decoded from one input share a budget of as many
+// elements as the input has bytes: every element takes at least one byte, so honest input
+// never exhausts it, while nested headers that each announce the whole rest of the input
+// ("a49999{a49999{a49999{...") cannot multiply it. Beyond the budget containers grow as
+// their elements arrive.
+func (dec *Decoder) preallocCount(count int) int {
+	n := dec.prealloc(count)
+	if n > dec.budget {
+		n = dec.budget
+	}
+	dec.budget -= n
+	return n
 }
 
 // NextByte reads and returns the next byte from the dec. If no byte is available, it returns 0.
@@ -612,6 +632,7 @@ func (dec *Decoder) loadMore() bool {
 		dec.head = 0
 		dec.tail = n
 		if n > 0 {
+			dec.budget += n
 			return true
 		}
 		if err != nil {
